@@ -1559,7 +1559,10 @@ impl<T: Storage> Raft<T> {
         // it's safe to start campaign.
         let low = match self.raft_log.unstable.maybe_first_index() {
             Some(idx) => idx,
-            None => self.raft_log.applied + 1,
+            // Entries below the first index are covered by a snapshot that has been persisted
+            // but possibly not yet reported applied; its configuration is in effect already,
+            // and those entries can no longer be read.
+            None => cmp::max(self.raft_log.applied + 1, self.raft_log.first_index()),
         };
         let high = self.raft_log.committed + 1;
         let ctx = GetEntriesContext(GetEntriesFor::TransferLeader);
